@@ -57,7 +57,7 @@ func reg(id string, c *propCfg) {
 }
 
 func init() {
-	reg("C01", &propCfg{Test: "TestC01", Quick: 3000, Thorough: 60000})
+	reg("C01", &propCfg{Test: "TestC01", Quick: 5000, Thorough: 80000})
 	reg("C02", &propCfg{Test: "TestC02", Quick: 2000, Thorough: 40000})
 	reg("C03", &propCfg{Test: "TestC03", Quick: 960, Thorough: 12000})
 	reg("C04", &propCfg{Test: "TestC04", Quick: 2000, Thorough: 40000})
@@ -66,18 +66,18 @@ func init() {
 	reg("C06", &propCfg{Test: "TestC06", Quick: 320, Thorough: 1000, Level: "fault_enumeration"})
 	reg("C07", &propCfg{Test: "TestC07", Quick: 1500, Thorough: 30000})
 	reg("C08", &propCfg{Test: "TestC08", Quick: 2500, Thorough: 50000})
-	reg("C09", &propCfg{Test: "TestC09", Quick: 6000, Thorough: 150000, Fuzz: "FuzzC09", FuzzTime: 120 * time.Second})
-	reg("C10", &propCfg{Test: "TestC10", Quick: 2500, Thorough: 50000})
+	reg("C09", &propCfg{Test: "TestC09", Quick: 12000, Thorough: 200000, Fuzz: "FuzzC09", FuzzTime: 120 * time.Second})
+	reg("C10", &propCfg{Test: "TestC10", Quick: 5000, Thorough: 80000})
 	reg("C11", &propCfg{Test: "TestC11", Quick: 2500, Thorough: 50000})
-	reg("C12", &propCfg{Test: "TestC12", Quick: 1500, Thorough: 25000})
-	reg("C13", &propCfg{Test: "TestC13", Quick: 2500, Thorough: 50000})
-	reg("C14", &propCfg{Test: "TestC14", Quick: 400, Thorough: 8000, Fuzz: "FuzzC14", FuzzTime: 120 * time.Second})
+	reg("C12", &propCfg{Test: "TestC12", Quick: 2000, Thorough: 30000})
+	reg("C13", &propCfg{Test: "TestC13", Quick: 8000, Thorough: 120000})
+	reg("C14", &propCfg{Test: "TestC14", Quick: 1200, Thorough: 16000, Fuzz: "FuzzC14", FuzzTime: 120 * time.Second})
 	reg("C15", &propCfg{Test: "TestC15", Quick: 1500, Thorough: 30000})
-	reg("C16", &propCfg{Test: "TestC16", Quick: 960, Thorough: 12000, StallIsViolation: true})
+	reg("C16", &propCfg{Test: "TestC16", Quick: 2400, Thorough: 24000, StallIsViolation: true})
 	reg("C17", &propCfg{Test: "TestC17", Quick: 480, Thorough: 6000, Race: true})
-	reg("C18", &propCfg{Test: "TestC18", Quick: 1000, Thorough: 20000})
+	reg("C18", &propCfg{Test: "TestC18", Quick: 2000, Thorough: 30000})
 	reg("C19", &propCfg{Test: "TestC19", Quick: 1500, Thorough: 20000, Fuzz: "FuzzC19", FuzzTime: 120 * time.Second})
-	reg("C20", &propCfg{Test: "TestC20", Quick: 2500, Thorough: 50000})
+	reg("C20", &propCfg{Test: "TestC20", Quick: 5000, Thorough: 80000})
 }
 
 // ---- shard report (mirror of mv.ShardOut) ----
